@@ -140,7 +140,6 @@ func ZZC03(n int) {
 	if last.k != 0 && before.node && !zzAffected(last, before.pattern) {
 		zzv.Cover("non-interference-checked")
 		zzv.Assert(after.node && after.pattern == before.pattern && after.id == before.id, "removal-changed-an-unrelated-request")
-		same := after.params.Count() == before.params.Count()
-		zzv.Assert(same, "removal-changed-params-of-an-unrelated-request")
+		zzv.Assert(after.params.equal(before.params), "removal-changed-params-of-an-unrelated-request")
 	}
 }
